@@ -105,6 +105,11 @@ pub fn alphabet() -> Vec<St> {
   // user functions: a definition binds nothing; a call whose body fails (index out of range / overflow) must change nothing
   v.push(St { text: "g(i<f64>) = z<f64> := m := [10 20 30]; z := m[i].".into(), k: K::FnDef, targets: vec![], reads: vec![], tmpl: "function-define" });
   v.push(St { text: "h(x<u8>) = z<u8> := z := x + 200<u8>.".into(), k: K::FnDef, targets: vec![], reads: vec![], tmpl: "function-define" });
+  // a body that fails with an ordinary error (an undefined variable), plain and match-arm form
+  v.push(St { text: "k(n<f64>) = r<f64> := r := n + qq.".into(), k: K::FnDef, targets: vec![], reads: vec![], tmpl: "function-define" });
+  v.push(St { text: "ka(n<f64>) => <f64>\n  | 0 => 1\n  | n => n + qq.".into(), k: K::FnDef, targets: vec![], reads: vec![], tmpl: "function-define" });
+  v.push(St { text: "c := k(1)".into(), k: K::DefDerived, targets: vec!["c"], reads: vec![], tmpl: "define-call(body-errors)" });
+  v.push(St { text: "c := ka(1)".into(), k: K::DefDerived, targets: vec!["c"], reads: vec![], tmpl: "define-call(arm-body-errors)" });
   v.push(St { text: "c := g(2)".into(), k: K::DefDerived, targets: vec!["c"], reads: vec![], tmpl: "define-call" });
   v.push(St { text: "c := g(7)".into(), k: K::DefDerived, targets: vec!["c"], reads: vec![], tmpl: "define-call(body-fails)" });
   v.push(St { text: "g(7)".into(), k: K::BareCall, targets: vec![], reads: vec![], tmpl: "call(body-fails)" });
